@@ -126,6 +126,8 @@ def check(name, tier, props):
             print(name, p, "exit", rc, viol[:1], what[:160])
     finally:
         sh(["git", "-C", "/repo", "checkout", "--", "."])
+        # tables and skeletons regenerated from the patched sources must not stay behind
+        sh(["git", "-C", ROOT, "checkout", "--", "lean/Gpc/Generated"])
     out = os.path.join(d, "result.json")
     old = json.load(open(out)) if os.path.exists(out) else {}
     old[tier] = res
